@@ -9,12 +9,15 @@ from fractions import Fraction
 import numpy as np
 from vlib import *
 
-RULE = ('N in 1..3 (quick) / 1..4 (thorough) stages; echelon holding costs k/4, lead times 1..2, stockout cost k/2; demand Poisson(mean 2..8, '
-        'random tail-truncation probabilities), discrete uniform, custom discrete on a subset of 0..6 (weights/sum or dyadic probabilities); random node '
-        'ids and list orders, list/dict parameter shape, parameter vs network form; plus a normal-demand stream (oracle only) and a malformed stream; '
+RULE = ('N in 1..3 (quick) / 1..4 (thorough) stages; echelon holding costs k/4, lead times 1..2, stockout cost k/2 (18 % of the multi-stage instances from a '
+        'costly-upstream regime: downstream echelon holding cost 0.1..0.5, upstream 1.5..5, downstream lead time 2..4, upstream 1, stockout cost 1..12, where '
+        'the optimal echelon levels are frequently not increasing in the stage index); demand Poisson(mean 2..8, '
+        'random tail-truncation probabilities), discrete uniform, custom discrete on a subset of 0..6 (weights/sum or dyadic probabilities; the (value, probability) pairs listed in increasing (40 %), decreasing (20 %) or '
+        'shuffled (40 %) order of the values, and every custom-discrete instance re-solved with the same pairs listed in another order); random node '
+        'ids and list orders, list/dict parameter shape, parameter vs network form; plus a normal-demand stream (oracle only; x_num x d_num = 120 x 30, one-stage instances 400 x 100) and a malformed stream; '
         'plus a session stream: chains of 2..3 closely related instances solved one after the other in the same process (a sensitivity study: same stages, '
         'costs and lead times, demand parameters perturbed - Poisson mean scaled or shifted by 0.001..0.004, two custom-discrete weights swapped (anywhere or '
-        'only in the upper tail), uniform range widened, normal mean / sd shifted by 0.001..0.004; fresh DemandSource object or the SAME object with its '
+        'only among the last 2..4 listed points), uniform range widened, normal mean / sd shifted by 0.001..0.004; fresh DemandSource object or the SAME object with its '
         'attributes re-set), whose base instance is drawn from a fine-parameter regime (slow-moving Poisson demand, mean 0.002..0.06 per period with lead '
         'times 3..30; Poisson means with 3 decimals; custom discrete demand with 9..12 support points in 0..13; normal mean and sd with 3 decimals) or from '
         'the regular regime; every instance of a chain gets the full oracle and model comparison, and its in-session result is compared with the result of '
@@ -38,6 +41,13 @@ def gen_case(rng, nmax, kinds=('P', 'UD', 'CD')):
     h = [rng.randint(1, 12) / 4 for _ in range(N)]                  # internal order: index 0 = stage 1 (downstream)
     L = [rng.randint(1, 2) for _ in range(N)]
     p = rng.randint(2, 80) / 2 if rng.random() < 0.85 else round(rng.uniform(5, 60), 2)
+    costly_upstream = N >= 2 and rng.random() < 0.18
+    if costly_upstream:
+        # almost no value added downstream, expensive upstream echelons, long downstream / short upstream lead time, moderate stockout cost: the
+        # optimal echelon levels are then frequently NOT increasing in the stage index (valid: the effective level is the min)
+        h = [rng.choice([0.1, 0.25, 0.25, 0.5])] + [rng.randint(6, 20) / 4 for _ in range(N - 1)]
+        L = [rng.randint(2, 4)] + [1] * (N - 1)
+        p = rng.randint(2, 24) / 2
     kind = rng.choice(kinds)
     tails = None
     if kind == 'P':
@@ -55,6 +65,7 @@ def gen_case(rng, nmax, kinds=('P', 'UD', 'CD')):
             while sum(w) < 8: w[rng.randrange(len(sup))] += 1
         else:
             w = [rng.randint(1, 4) for _ in sup]
+        sup, w = relist(rng, sup, w)
         dem = dict(kind='CD', support=sup, weights=w)
     else:
         m = rng.randint(3, 8)
@@ -65,8 +76,27 @@ def gen_case(rng, nmax, kinds=('P', 'UD', 'CD')):
     else:
         order_sys = rng.sample(range(0, 12) if rng.random() < 0.5 else range(1, N + 1), N); default_order = False
     order_lists = list(order_sys) if (default_order or rng.random() < 0.4) else rng.sample(order_sys, N)
-    return dict(N=N, h=h, L=L, p=p, dem=dem, tails=tails, order_sys=order_sys, order_lists=order_lists, default_order=default_order,
-                shape=rng.choice(['list', 'list', 'dict']), form=rng.choice(['params', 'params', 'network']), malformed=None)
+    c = dict(N=N, h=h, L=L, p=p, dem=dem, tails=tails, order_sys=order_sys, order_lists=order_lists, default_order=default_order,
+             shape=rng.choice(['list', 'list', 'dict']), form=rng.choice(['params', 'params', 'network']), malformed=None,
+             cost_regime='costly-upstream' if costly_upstream else 'regular')
+    if kind == 'N' and N == 1:
+        c['grid'] = [400, 100]      # x_num, d_num: one stage is compared with newsvendor_normal at 2 %; the discretisation error of the 120 x 30 grid reaches 5.5 % there
+                                    # (mean 8, sd 0.5, L 2, h 3, p 1: C* 0.844 vs 0.899; 0.902 on 400 x 100), on 400 x 100 it stays below 0.5 %
+    return c
+
+
+def relist(rng, sup, w):
+    """a custom-discrete demand is a list of values and a list of probabilities in the same order - any order: list the (value, weight) pairs
+    in increasing order of the values (40 %), in decreasing order (20 %) or shuffled (40 %)."""
+    pairs = sorted(zip(sup, w)); u = rng.random()
+    if u < 0.2: pairs.reverse()
+    elif u < 0.6: rng.shuffle(pairs)
+    return [a for a, _ in pairs], [b for _, b in pairs]
+
+
+def cd_listing(dem):
+    sup = list(dem['support'])
+    return 'increasing' if sup == sorted(sup) else ('decreasing' if sup == sorted(sup, reverse=True) else 'shuffled')
 
 
 def gen_malformed(rng):
@@ -92,7 +122,8 @@ def gen_fine(rng, nmax):
         c['dem'] = dict(kind='P', mean=rng.randint(300, 6000) / 1000)
     elif reg == 'CD-long':
         sup = sorted(rng.sample(range(0, 14), rng.randint(9, 12)))
-        c['dem'] = dict(kind='CD', support=sup, weights=[rng.randint(1, 9) for _ in sup])
+        sup, w = relist(rng, sup, [rng.randint(1, 9) for _ in sup])
+        c['dem'] = dict(kind='CD', support=sup, weights=w)
     else:
         c['dem'] = dict(kind='N', mean=rng.randint(3000, 8000) / 1000, sd=rng.randint(500, 1500) / 1000)
         c['grid'] = [400, 100]      # x_num, d_num: with non-round mean / sd the discretisation error of the 120 x 30 grid of the normal stream reaches 5 %
@@ -115,7 +146,7 @@ def gen_sibling(rng, c0):
     elif d['kind'] == 'CD':
         w = d['weights']; n = len(w)
         idx = list(range(n)); how = 'swap-anywhere'
-        if rng.random() < 0.5: idx = idx[-min(n, rng.randint(2, 4)):]; how = 'swap-in-upper-tail'
+        if rng.random() < 0.5: idx = idx[-min(n, rng.randint(2, 4)):]; how = 'swap-among-last-listed'      # = the upper tail when the values are listed in increasing order
         pairs = [(a, b) for a in idx for b in idx if a < b and w[a] != w[b]]
         if pairs:
             a, b = rng.choice(pairs); w[a], w[b] = w[b], w[a]
@@ -532,6 +563,20 @@ def invariance(c, r, rng):
     alt = run_impl(c, form=other, default_order=False)
     if alt[0] == 'err' or alt[1] != lv or not rel_close(alt[2], Cstar, 1e-12):
         bad.append(('optimize_base_stock_levels|network-vs-params-differ', '%s form: %r vs %s form %r' % (other, alt[1:3], c['form'], (lv, Cstar))))
+    if c['dem']['kind'] == 'CD':      # the same custom-discrete demand with its (value, probability) pairs listed in another order
+        d = c['dem']; pairs = list(zip(d['support'], d['weights'])); srt = sorted(pairs)
+        if pairs != srt: new = srt
+        else:
+            new = srt[::-1]
+            if rng.random() < 0.6:
+                for _ in range(5):
+                    cand = rng.sample(srt, len(srt))
+                    if cand != srt: new = cand; break
+        d2 = dict(kind='CD', support=[a for a, _ in new], weights=[b for _, b in new])
+        alt = run_impl(c, ds_obj=make_ds(d2))
+        if alt[0] == 'err' or alt[1] != lv or not rel_close(alt[2], Cstar, 1e-12):
+            bad.append(('optimize_base_stock_levels|CD-demand|listing-order-changes-result',
+                        'demand_list %r (probabilities in the same order): %r vs demand_list %r: %r' % (d2['support'], alt[1:3], list(d['support']), (lv, Cstar))))
     return bad
 
 
@@ -544,7 +589,11 @@ def oracle_normal(c, r):
         from stockpyl.newsvendor import newsvendor_normal
         m = c['dem']['mean'] * c['L'][0]; s = c['dem']['sd'] * math.sqrt(c['L'][0])
         Snv, Cnv = newsvendor_normal(c['h'][0], c['p'], m, s)
-        if not rel_close(Cnv, Cstar, 2e-2):
+        # documented truncation: the code moves the lead-time demand below 0 to 0 (d_lo = max(., 0)), newsvendor_normal does not; the cost function is
+        # max(h, p)-Lipschitz in the demand, so the two optimal costs differ by at most max(h, p) E[D^-] = max(h, p) s (phi(z) - z (1 - Phi(z))), z = m / s
+        # (2 % of C* for mean 3, sd 1.5, L 1, h 3, p 1 - on every grid; below 1e-5 s for z >= 4)
+        z = m / s; trunc = max(c['h'][0], c['p']) * s * (math.exp(-z * z / 2) / math.sqrt(2 * math.pi) - z * 0.5 * math.erfc(z / math.sqrt(2)))
+        if abs(float(Cnv) - Cstar) > 2e-2 * max(1.0, abs(float(Cnv)), abs(Cstar)) + trunc:
             bad.append(('optimize_base_stock_levels|one-stage-cost-not-newsvendor', 'normal N=1: C*=%r newsvendor %r' % (Cstar, float(Cnv))))
         if abs(float(Snv) - lv[1]) > 0.25 * s + 0.2:
             bad.append(('optimize_base_stock_levels|one-stage-level-not-newsvendor', 'normal N=1: S*=%r newsvendor %r' % (lv[1], float(Snv))))
@@ -567,7 +616,9 @@ def oracle_normal(c, r):
 # ------------------------------------------------------------------------------------------------ driver
 
 def case_key(c):
-    return json.dumps(jsonable([c['N'], c['h'], c['L'], c['p'], c['dem'], c['tails']]), sort_keys=True)
+    dem = c['dem']
+    if dem['kind'] == 'CD': dem = ['CD', sorted(zip(dem['support'], dem['weights']))]      # the demand, not its listing
+    return json.dumps(jsonable([c['N'], c['h'], c['L'], c['p'], dem, c['tails']]), sort_keys=True)
 
 
 def explore(chk, n, nmax, do_model=True, n_normal=0, n_malformed=0, n_chains=0):
@@ -612,6 +663,7 @@ def explore(chk, n, nmax, do_model=True, n_normal=0, n_malformed=0, n_chains=0):
         chk.count('N=%d' % N); chk.count('demand=%s' % kind); chk.count('form=%s' % c['form']); chk.count('shape=%s' % c['shape'])
         chk.count('numbering=%s' % ('default' if c['default_order'] else ('N..1-explicit' if c['order_sys'] == list(range(N, 0, -1)) else 'relabelled')))
         chk.count('malformed=%s' % c['malformed'])
+        if kind == 'CD': chk.count('CD demand_list order=%s' % cd_listing(c['dem']))
         if 'reuse_ds' in c:
             chk.count('session: position %d, %s' % (len(c.get('prior') or []) + 1, 'same DemandSource object' if c['reuse_ds'] else 'fresh DemandSource objects'))
             chk.count('session: base regime %s' % (c.get('prior') or [c])[0].get('regime', 'regular'))
@@ -629,6 +681,8 @@ def explore(chk, n, nmax, do_model=True, n_normal=0, n_malformed=0, n_chains=0):
         for sig, what in (pre_oracle[i] if i in pre_oracle else oracle(chk, c, r, rng)):
             chk.fail(sig, what, c)
         lv = r[1]
+        chk.count('cost regime=%s' % c.get('cost_regime', 'regular'))
+        if N >= 2: chk.count('S*_j increasing in j=%s' % ('yes' if all(lv[j] >= lv[j - 1] for j in range(2, N + 1)) else 'no'))
         nontriv = False
         if kind != 'N':
             tb0 = model[i][0][1] if i in model else tables(c)
